@@ -53,6 +53,7 @@ from vgi_rpc.rpc._common import (
     HookToken,
     _current_body_precompressed,
     _current_call_stats,
+    _current_request_batch,
     _current_request_metadata,
     _current_response_codec,
     _current_stream_id,
@@ -288,6 +289,14 @@ def _run_stream_init_sync(
         ) as outcome:
             try:
                 result: Stream[StreamState, Any] = getattr(app._server.implementation, method_name)(**kwargs)
+                # A malformed return value is the method's own failure, as on
+                # the pipe transports: report it (and log it) as one rather
+                # than failing later, outside this handler, with a bare 500
+                # while the access log still says "ok".
+                if not isinstance(result, Stream):
+                    raise TypeError(f"Method '{method_name}' must return a Stream, got {type(result).__name__}")
+                if info.header_type is not None and result.header is None:
+                    raise TypeError(f"Method '{method_name}' declares header type but returned header=None")
             # No narrow (TypeError, pa.ArrowInvalid) -> 400 branch here; see the
             # matching note in _app_unary.py.  Request errors are already caught
             # above by the _read_request / _deserialize_params / _validate_params
@@ -492,6 +501,10 @@ def _run_stream_exchange_sync(
     """
     stats = CallStatistics()
     stats_token = _current_call_stats.set(stats)
+    # A continuation/exchange body is stream input, not a call request: the
+    # access-log spec carries ``request_data`` on unary and init records only
+    # (and its one-row rule would reject an input batch).
+    _current_request_batch.set(None)
     try:
         state_info = app._state_types.get(method_name)
         if state_info is None:
